@@ -21,6 +21,7 @@ type Violation struct {
 	Case   int    `json:"case"`   // index into cases.txt, -1 when not tied to a model case
 	What   string `json:"what"`   // what failed
 	Replay string `json:"replay"` // input that reproduces it
+	Key    string `json:"key,omitempty"` // identity of a known finding this violation is an instance of
 }
 
 type Report struct {
@@ -33,6 +34,7 @@ type Report struct {
 	Extra      map[string]any `json:"extra,omitempty"`
 
 	cases, impl, pretty []string
+	keys                []string
 	nontrivial          map[string]bool
 }
 
@@ -57,7 +59,14 @@ func (r *Report) Add(caseLine, implLine, pretty string, nontrivial bool, tags ..
 
 func (r *Report) Violate(idx int, what, replay string) {
 	if len(r.Violations) < 200 {
-		r.Violations = append(r.Violations, Violation{idx, what, replay})
+		r.Violations = append(r.Violations, Violation{Case: idx, What: what, Replay: replay})
+	}
+}
+
+// ViolateKnown records a violation that is an instance of a (possibly) known finding
+func (r *Report) ViolateKnown(idx int, what, replay, key string) {
+	if len(r.Violations) < 200 {
+		r.Violations = append(r.Violations, Violation{Case: idx, What: what, Replay: replay, Key: key})
 	}
 }
 
